@@ -22,6 +22,7 @@ type Opts struct {
 	Blend     uint8       `json:"blend,omitempty"`
 	PixFill   uint8       `json:"pixfill,omitempty"`
 	MaxPixels uint32      `json:"max_pixels,omitempty"`
+	DstCap    uint32      `json:"dst_cap,omitempty"` // capacity of the destination buffer (0 = 4 MiB)
 	Dump      uint8       `json:"dump,omitempty"`
 	Pure      bool        `json:"pure,omitempty"`
 	Seed      uint64      `json:"seed,omitempty"`
@@ -195,7 +196,11 @@ func AppendPlan(r *stdh.Req, k stdh.Kind, payload []byte, plan stdgen.Plan, o Op
 		}
 	}
 	r.SrcClose(plan.SrcMode, plan.SrcChunk, closeMode, plan.SrcExact, plan.SrcList)
-	r.Dst(plan.DstMode, 1<<22, plan.DstStep, plan.DstFill, disciplined)
+	dcap := o.DstCap
+	if dcap == 0 {
+		dcap = 1 << 22
+	}
+	r.Dst(plan.DstMode, dcap, plan.DstStep, plan.DstFill, disciplined)
 	r.Work(plan.WorkMode, plan.WorkFill)
 	if k.Iface == stdh.IMG {
 		r.Pix(o.PixFmt, o.Blend, o.PixFill, o.MaxPixels, o.Dump)
